@@ -250,7 +250,7 @@ func checkC03(c *Ctx, r *Report) {
 		if fnKey(f) == m("resourceScope", "doneUnlocked") {
 			continue
 		}
-		calls := findInstrs(f, func(in ssa.Instruction) bool {
+		calls := findInstrsIn(f, func(in ssa.Instruction) bool {
 			if !isCallTo(in, muts...) {
 				return false
 			}
@@ -583,7 +583,7 @@ func checkC03(c *Ctx, r *Report) {
 	nLit := 0
 	for _, T := range []string{"ErrStreamOrConnLimitExceeded", "ErrMemoryLimitExceeded"} {
 		for _, f := range c.FnsOfPkg(rmP) {
-			for _, st := range findInstrs(f, fieldWritePred(rmP+"."+T+".err")) {
+			for _, st := range findInstrsIn(f, fieldWritePred(rmP+"."+T+".err")) {
 				nLit++
 				v := st.(*ssa.Store).Val
 				ok := isSentinel(strip2(v))
@@ -809,7 +809,7 @@ func checkC03(c *Ctx, r *Report) {
 		key := resT + "." + fld
 		n := 0
 		for _, f := range c.FnsOfPkg(rmP) {
-			for _, st := range findInstrs(f, fieldWritePred(key)) {
+			for _, st := range findInstrsIn(f, fieldWritePred(key)) {
 				n++
 				root := c.Root(f)
 				isOwn := root.Signature.Recv() != nil && func() bool { _, tn := typeNameOf(root.Signature.Recv().Type()); return tn == "resources" }()
